@@ -157,3 +157,118 @@ func describeVal(v ssa.Value) string {
 	})
 	return out
 }
+
+// errOverwritten: an error variable that is carried from one loop iteration to the next (and reported
+// after the loop) must not be assigned a value that may be nil inside the loop: a later successful
+// iteration would erase the failure of an earlier one.
+func errOverwritten(w *World, r *Report, rule string, pkgs []string) int {
+	n := 0
+	for _, rel := range pkgs {
+		for _, fn := range w.FuncsIn(rel) {
+			var scc map[*ssa.BasicBlock][]*ssa.BasicBlock
+			var g *Graph
+			seen := 0
+			for _, b := range fn.Blocks {
+				for _, in := range b.Instrs {
+					phi, ok := in.(*ssa.Phi)
+					if !ok {
+						break
+					}
+					if !isErrorType(phi.Type()) {
+						continue
+					}
+					if scc == nil {
+						scc = sccOf(fn)
+						g = FullGraph(fn)
+					}
+					comp := scc[b]
+					if len(comp) < 2 {
+						continue
+					}
+					inLoop := map[*ssa.BasicBlock]bool{}
+					for _, x := range comp {
+						inLoop[x] = true
+					}
+					// loop-carried: some incoming edge comes from inside the loop, and the value reaches a return
+					carried := false
+					for i := range phi.Edges {
+						if inLoop[b.Preds[i]] {
+							carried = true
+						}
+					}
+					if !carried || !reachesReturn(phi) {
+						continue
+					}
+					bad := ""
+					for i, e := range phi.Edges {
+						p := b.Preds[i]
+						if !inLoop[p] || e == ssa.Value(phi) {
+							continue
+						}
+						if inner, isPhi := e.(*ssa.Phi); isPhi {
+							// a merge inside the loop: judge its own incoming values
+							for k, e2 := range inner.Edges {
+								if e2 == ssa.Value(phi) || e2 == ssa.Value(inner) {
+									continue
+								}
+								if g.nilnessAtEnd(e2, inner.Block().Preds[k], inner.Block(), 0) != 2 {
+									bad = w.InstrPos(firstInstr(inner.Block().Preds[k]))
+								}
+							}
+							continue
+						}
+						if g.nilnessAtEnd(e, p, b, 0) != 2 {
+							bad = w.InstrPos(firstInstr(p))
+						}
+					}
+					n++
+					seen++
+					r.Fn(FuncName(fn))
+					r.Check(bad == "", rule, fmt.Sprintf("%s/loop-error#%d", FuncName(fn), seen), w.InstrPos(phi), "inside the loop the carried error is only ever replaced by a non-nil error", "the error carried across iterations can be overwritten with a value that may be nil (assignment near "+bad+"): a failure of an earlier iteration is erased by a later one")
+				}
+			}
+		}
+	}
+	return n
+}
+
+func firstInstr(b *ssa.BasicBlock) ssa.Instruction {
+	for _, in := range b.Instrs {
+		if in.Pos().IsValid() {
+			return in
+		}
+	}
+	return b.Instrs[0]
+}
+
+// reachesReturn: the value (through further phis and nil-preserving wrappers) is an operand of a return.
+func reachesReturn(v ssa.Value) bool {
+	seen := map[ssa.Value]bool{}
+	var walk func(x ssa.Value, d int) bool
+	walk = func(x ssa.Value, d int) bool {
+		if seen[x] || d > 6 || x.Referrers() == nil {
+			return false
+		}
+		seen[x] = true
+		for _, rf := range *x.Referrers() {
+			switch y := rf.(type) {
+			case *ssa.Return:
+				return true
+			case *ssa.Phi:
+				if walk(y, d+1) {
+					return true
+				}
+			case *ssa.Call:
+				if inner, ok := nilPreservingArg(y); ok && inner == x && walk(y, d+1) {
+					return true
+				}
+			case *ssa.Store:
+				if al, ok := y.Addr.(*ssa.Alloc); ok && isResultSlot(al) {
+					return true
+				}
+			}
+		}
+		return false
+	}
+	return walk(v, 0)
+}
